@@ -29,7 +29,7 @@ META = {
         'REDMONSTER on ormask, dilates each row with width 2*ngrow+1 using the edge-truncating smooth, multiplies invvar by the '
         'complement; C17.SKY-CAST - each & between the caller\'s mask and a uint64 flag value has an explicit conversion. '
         'C17.MEDIAN - djs_median does not pad with the non-repeating reflect mode of numpy.pad. C17.SMOOTH - smooth() uses the requested width made odd and returns its input unchanged only for widths below 3; C17.REJ-MASKS also: the model-less first pass hands back the input mask. C17.FLOAT-OUT - the arrays that djs_maskinterp fills with interpolated samples and djs_reject with scaled deviations are not allocated in the dtype of the data; C17.INMASK-TRUTH - djs_reject turns the caller\'s inmask into truth values before combining it bitwise; NOT decided: the explicit reflection slices of djs_median, maxrej/group logic, numerical interpolation values.'),
-    'floors': {'C17.INMASK-TRUTH': 2, 'C17.FLOAT-OUT': 2, 'C17.SMOOTH': 1, 'C17.MI-SITES': 6, 'C17.MI1-STORE': 6, 'C17.MI1-ORDER': 1, 'C17.GROW': 3, 'C17.REJ-MASKS': 10, 'C17.AESTH': 4,
+    'floors': {'C17.INMASK-TRUTH': 2, 'C17.FLOAT-OUT': 2, 'C17.SMOOTH': 1, 'C17.MI-SITES': 2, 'C17.MI1-STORE': 6, 'C17.MI1-ORDER': 1, 'C17.GROW': 3, 'C17.REJ-MASKS': 10, 'C17.AESTH': 4,
                'C17.SKY': 5, 'C17.SKY-CAST': 1, 'C17.MEDIAN': 1},
 }
 
@@ -66,6 +66,78 @@ def _is_none_test(t, name):
     return 0
 
 
+def _generic_site(st, c, f, fa, yv, ax):
+    """A dispatch written once for every dimension:  for index in np.ndindex(*[n for k, n in enumerate(yval.shape) if k != A]):
+    V = index[:A] + (slice(None),) + index[A:]; ynew[V] = djs_maskinterp1(yval[V], ...).  Returns (A as an expression, the loop) or None."""
+    if not (isinstance(st, ast.Assign) and isinstance(st.targets[0], ast.Subscript) and isinstance(st.targets[0].slice, ast.Name)):
+        return None
+    v = fa.resolve(st.targets[0].slice)
+    if not (isinstance(v, ast.BinOp) and isinstance(v.op, ast.Add) and isinstance(v.left, ast.BinOp) and isinstance(v.left.op, ast.Add)):
+        return None
+    head, mid, tail = v.left.left, v.left.right, v.right
+    if not (isinstance(mid, ast.Tuple) and len(mid.elts) == 1 and idx_tuple(ast.Subscript(value=ast.Name(id='_', ctx=ast.Load()), slice=mid.elts[0], ctx=ast.Load())) == (':',)):
+        return None
+    if not (isinstance(head, ast.Subscript) and isinstance(tail, ast.Subscript) and isinstance(head.value, ast.Name) and isinstance(tail.value, ast.Name)
+            and head.value.id == tail.value.id and isinstance(head.slice, ast.Slice) and isinstance(tail.slice, ast.Slice)
+            and head.slice.lower is None and tail.slice.upper is None and head.slice.step is None and tail.slice.step is None
+            and head.slice.upper is not None and tail.slice.lower is not None and src(head.slice.upper) == src(tail.slice.lower)):
+        return None
+    A = head.slice.upper
+    loop = None
+    for a in ancestors(c):
+        if isinstance(a, ast.For) and isinstance(a.target, ast.Name) and a.target.id == head.value.id:
+            loop = a
+            break
+    if loop is None or not (isinstance(loop.iter, ast.Call) and call_name(loop.iter) == 'ndindex' and len(loop.iter.args) == 1
+                            and isinstance(loop.iter.args[0], ast.Starred)):
+        return None
+    from ..fn import expand
+    others = expand(loop.iter.args[0].value, fa, 3)
+    while isinstance(others, ast.Call) and call_name(others) in ('tuple', 'list') and len(others.args) == 1:
+        others = others.args[0]
+    # every extent but the one at position A, in order
+    ok = isinstance(others, (ast.ListComp, ast.GeneratorExp)) and len(others.generators) == 1 and isinstance(others.generators[0].iter, ast.Call) \
+        and call_name(others.generators[0].iter) == 'enumerate' and src(others.generators[0].iter.args[0]) == '%s.shape' % yv \
+        and isinstance(others.generators[0].target, ast.Tuple) and len(others.generators[0].target.elts) == 2
+    if ok:
+        k_, n_ = (t.id for t in others.generators[0].target.elts)
+        cond = others.generators[0].ifs
+        ok = isinstance(others.elt, ast.Name) and others.elt.id == n_ and len(cond) == 1 and src(cond[0]).replace(' ', '') in (
+            '%s!=%s' % (k_, src(A)), '%s!=%s' % (src(A), k_))
+    if not ok:
+        return None
+    return A, loop
+
+
+def generic_positions(f, A, loop, yv, ax):
+    """{(ndim, axis): position of the interpolated axis} of a generic dispatch site, by interpreting the statements in front of its loop."""
+    from .. import minieval
+    blk = None
+    for owner in ast.walk(f.node):
+        for fld in ('body', 'orelse'):
+            v_ = getattr(owner, fld, None)
+            if isinstance(v_, list) and any(x is loop for x in v_):
+                blk = v_[:[k for k, x in enumerate(v_) if x is loop][0]]
+    if blk is None:
+        raise AnalysisError('C17: djs_maskinterp: the statements in front of the generic loop not found')
+    nd = [st_.targets[0].id for st_ in walk_local(f.node) if isinstance(st_, ast.Assign) and isinstance(st_.targets[0], ast.Name)
+          and src(st_.value) in ('%s.ndim' % yv, 'len(%s.shape)' % yv)]
+    out = {}
+    for d_ in (2, 3):
+        for a_ in range(d_):
+            env0 = {ax: a_}
+            env0.update({n_: d_ for n_ in nd})
+            try:
+                env = minieval.run(blk, env0, {'%s.ndim' % yv: d_}, lambda s_, e_: None)
+                pos = minieval.ev(A, env, {'%s.ndim' % yv: d_}) if env is not None else minieval.TOP
+            except minieval.Unknown as e:
+                raise AnalysisError('C17: djs_maskinterp: the position of the interpolated axis is not arithmetic the index evaluator understands (%s)' % e)
+            if pos is minieval.TOP:
+                raise AnalysisError('C17: djs_maskinterp: the position of the interpolated axis has no value for ndim=%d, axis=%d' % (d_, a_))
+            out[(d_, a_)] = pos
+    return out
+
+
 def check_mi_sites(ctx, repo):
     f = repo.func(IMAGE, 'djs_maskinterp')
     g = repo.func(IMAGE, 'djs_maskinterp1')
@@ -92,6 +164,7 @@ def check_mi_sites(ctx, repo):
                 under = _is_none_test(a.test, xv) * (1 if inbody else -1)
                 break
             child = a
+        generic = _generic_site(st, c, f, fa, yv, ax)
         if isinstance(st, ast.Assign) and isinstance(st.targets[0], ast.Subscript):
             tgt = idx_tuple(st.targets[0], fa)
             whole = False
@@ -153,7 +226,20 @@ def check_mi_sites(ctx, repo):
                                       ('arguments are not yval/mask slices', okargs), ('const=const not passed', okconst),
                                       ('xval is not handed on as the same slice exactly when it is given', okx)) if not ok)),
                   construct='maskinterp site ' + src(st)[:90])
-        shapes.add((len(tgt), tgt.index(':')) if ':' in tgt else (1, 0))
+        if generic is None:
+            shapes.add((len(tgt), tgt.index(':')) if ':' in tgt else (1, 0))
+            continue
+        # one site for every dimension: the position of the interpolated axis, by interpreting the code in front of the loop for every
+        # (number of dimensions, axis) the routine accepts; `axis` counts from the last dimension
+        A, loop = generic
+        wrong = None
+        for (d_, a_), pos in sorted(generic_positions(f, A, loop, yv, ax).items()):
+            if pos != d_ - 1 - a_ and wrong is None:
+                wrong = (d_, a_, pos)
+            shapes.add((d_, d_ - 1 - a_))
+        ctx.check('C17.MI-SITES', wrong is None, f, loop, 'generic site: axis a of a d-dimensional image is interpolated along position d-1-a (d = 2, 3)',
+                  msg='djs_maskinterp interpolates a %s-dimensional image with axis=%s along position %s, not %s' % (
+                      wrong + (wrong[0] - 1 - wrong[1],) if wrong else ('', '', '', '')), construct='generic maskinterp site: axis position')
     return shapes
 
 
@@ -759,7 +845,7 @@ def check_smooth_width(ctx, repo):
         raise AnalysisError('C17: smooth does not average by dividing boxcar sums: not an idiom this checker can judge')
     prelude = []
     for st in f.node.body:
-        if isinstance(st, (ast.For, ast.While)):
+        if any(isinstance(x, (ast.For, ast.While)) for x in ast.walk(st)):
             break
         prelude.append(st)
     bad = None
